@@ -187,6 +187,49 @@ def c08_cmdline(split, pi, vi, typo):
     return got == exp
 
 
+REPL_KEYS = [('b', True), ('zz', False), ("'b.c'", False), ("'b.l[0]'", False), ('e', True), ("'m.x'", False)]
+
+
+def c08_replace(split, ki, n0p, n0, dp, d):
+    """a deleting node below !notnew replaces a whole subtree: its entries may only use paths that existed before -
+    also when a key's TEXT spells an existing nested path (a.'b.c' is not a.b.c)"""
+    reset()
+    ki = pick(ki, len(REPL_KEYS))
+    key, existed = REPL_KEYS[ki]
+    f0 = {'allow_new': n0} if n0p else {}
+    fd = {'delete': d} if dp else {}
+    s0 = site('s0', f0) if f0 else ''
+    sd = site('sd', fd) if fd else ''
+    doc = (s0 + ' ' if s0 else '') + '{a: ' + (sd + ' ' if sd else '') + '{' + key + ': 5}}'
+    note(docs=[BASE_TEXT, doc])
+    deleting = bool(dp and d)
+    notnew = bool(n0p and not n0)
+    exp_err = notnew and not existed
+    try:
+        b = Builder()
+        b.add_multiple_sources(BASE_TEXT, doc, raw_yaml=True)
+        got = EvalContext().evaluate(b.build())
+    except ayerr.MergeError as e:
+        reraise_internal(e)
+        note(error=str(e)[:300])
+        wit('merge_error')
+        return exp_err
+    except Exception as e:
+        reraise_internal(e)
+        note(error='unexpected ' + repr(e)[:300])
+        return False
+    note(got=repr(got))
+    if exp_err:
+        return False
+    wit('built')
+    k = key.strip("'")
+    if deleting:
+        return got['a'] == {k: 5} and got['t'] == 0
+    exp_a = dict(BASE['a'])
+    exp_a[k] = 5
+    return got['a'] == exp_a and got['t'] == 0
+
+
 def _splits_notnew(tier):
     out = []
     for pi in range(len(PATHS)):
@@ -203,6 +246,9 @@ HARNESSES = {
                            ('n0p', 'bool'), ('n0', 'bool'), ('n1p', 'bool'), ('n1', 'bool'), ('d0p', 'bool'), ('u0p', 'bool')],
                           _splits_notnew, pre='(not d0p or not u0p)',
                           doc='override document writing one of 9 paths; allow_new flags symbolic at the root and at an inner node of the path', witnesses=('built', 'merge_error')),
+    'c08_replace': Harness('c08_replace', c08_replace, [('ki', 'int', 0, len(REPL_KEYS) - 1), ('n0p', 'bool'), ('n0', 'bool'), ('dp', 'bool'), ('d', 'bool')],
+                           lambda tier: [{}], doc='subtree replaced by a deleting node below a symbolic !notnew/!new root; keys incl. ones whose text spells an existing nested path',
+                           witnesses=('built', 'merge_error')),
     'c08_cmdline': Harness('c08_cmdline', c08_cmdline,
                            [('pi', 'int', 0, len(PATHS) - 1), ('vi', 'int', 0, len(VALUES) - 1), ('typo', 'int', 0, 2)],
                            lambda tier: [{'_pre': 'pi == %d' % pi} for pi in range(len(PATHS))],
